@@ -100,6 +100,24 @@ type frameEngine struct {
 	sites map[ssa.Value]int
 	impls map[string][]*ssa.Function // interface method name -> implementations in the module
 	notes map[string]bool
+	// badReleases: functions that hand a state back to the pool / local slot although it came in through a
+	// parameter, i.e. belongs to the caller, who keeps using it (key: function, value: witness)
+	badReleases map[string]string
+}
+
+// release points: after the call the argument may be handed to another goroutine
+func isReleaseFn(name string) bool {
+	switch name {
+	case "(*sync.Pool).Put", "(*" + modPath + "/meta.Engine).putSearchState", "(*" + modPath + "/meta.searchStatePool).put":
+		return true
+	}
+	return false
+}
+
+// functions whose JOB is to release their parameter
+func isReleaseWrapper(fn *ssa.Function) bool {
+	n := strings.ToLower(fn.Name())
+	return strings.HasPrefix(n, "put") || strings.HasPrefix(n, "release")
 }
 
 func newFrameEngine(p *Prog) *frameEngine {
@@ -449,8 +467,10 @@ func (fe *frameEngine) analyze(fn *ssa.Function) bool {
 					addWrite(extend(o, "*"), false, []string{fmt.Sprintf("map update at %s in %s", pos(ins), shortKey(fn.String()))})
 				}
 			case *ssa.Call:
+				fe.checkRelease(fn, b, ins, &x.Call, get, pos(ins))
 				fe.callEffects(x, fn, get, addWrite, pos(ins))
 			case *ssa.Defer:
+				fe.checkRelease(fn, b, ins, &x.Call, get, pos(ins))
 				fake := &ssa.Call{Call: x.Call}
 				fe.callEffects(fake, fn, get, addWrite, pos(ins))
 			case *ssa.Go:
@@ -712,6 +732,55 @@ func (fe *frameEngine) callEffects(c *ssa.Call, fn *ssa.Function, get func(ssa.V
 	}
 }
 
+// checkRelease: a call (or deferred call) that hands a value back to a pool / the local slot must release a value this
+// function obtained itself. The analysis is flow-insensitive for locals, so the released local is resolved to the value
+// stored into it earlier in the SAME block when there is one (state = e.getSearchState(); defer e.putSearchState(state)).
+func (fe *frameEngine) checkRelease(fn *ssa.Function, b *ssa.BasicBlock, at ssa.Instruction, cc *ssa.CallCommon, get func(ssa.Value) oset, where string) {
+	if isReleaseWrapper(fn) || cc.IsInvoke() {
+		return
+	}
+	f := cc.StaticCallee()
+	if f == nil || !isReleaseFn(calleeName(f)) || len(cc.Args) < 2 {
+		return
+	}
+	rel := cc.Args[1]
+	if mi, ok := rel.(*ssa.MakeInterface); ok {
+		rel = mi.X
+	}
+	if u, ok := rel.(*ssa.UnOp); ok && u.Op == token.MUL {
+		if al, ok := u.X.(*ssa.Alloc); ok {
+			// position of the load in the block
+			li := -1
+			for i, ins := range b.Instrs {
+				if ins == ssa.Instruction(u) {
+					li = i
+				}
+			}
+			if li < 0 {
+				for i, ins := range b.Instrs {
+					if ins == at {
+						li = i
+					}
+				}
+			}
+			for i := li - 1; i >= 0; i-- {
+				if st, ok := b.Instrs[i].(*ssa.Store); ok && st.Addr == ssa.Value(al) {
+					rel = st.Val
+					break
+				}
+			}
+		}
+	}
+	for o := range fe.valOrigins(rel, get) {
+		if o.kind == oParam {
+			if fe.badReleases == nil {
+				fe.badReleases = map[string]string{}
+			}
+			fe.badReleases[shortKey(fn.String())] = fmt.Sprintf("%s calls %s at %s: the released value may be %s", shortKey(fn.String()), shortKey(calleeName(f)), where, o.String())
+		}
+	}
+}
+
 func mutatingLibMethod(f *ssa.Function) bool {
 	n := f.Name()
 	for _, p := range []string{"Write", "Reset", "Grow", "Set", "Add", "Store", "Swap", "Push", "Pop", "Truncate", "Read", "Unread", "Lock", "Unlock", "Do"} {
@@ -860,6 +929,14 @@ func cmdFrame(args []string) int {
 				samples = append(samples, map[string]any{"obligation": "frame:" + shortKey(fn.String()), "result": "no non-atomic write to shared or input memory", "owned_or_atomic_writes": len(s.writes)})
 			}
 		}
+	}
+	// ownership is also lost by RELEASING what one does not own: a function that puts a state it received from its
+	// caller back into the pool / local slot lets another goroutine take it while the caller still uses it
+	for fnName, wit := range fe.badReleases {
+		key := "frame:releases-callers-state:" + fnName
+		ff := frameFinding{Entry: fnName, Root: "state received through a parameter", Effect: wit, Key: key}
+		findings = append(findings, ff)
+		groups[key] = append(groups[key], ff)
 	}
 	// known findings / violations: one obligation per shared object that is written without synchronisation
 	kf := loadKnownFindings()
